@@ -695,14 +695,17 @@ pub fn run_bulk_selected(ctx: &Ctx, prefix: &str, is_async: bool, which: &[&str]
     // (8) storage mode with a damaged storage-header magic: the piece is still cut at 16 + LEN and
     // parsed as a slice (which resynchronises inside the piece)
     if which.contains(&"storage_damage") {
-        let sp = Space::new(&[5, 6, 3, 2]);
-        let s2 = sp.clone();
-        ctx.run_family(Family::new(format!("{}.bulk.storage_damage", prefix), sp.size(), "storage mode: a good record, a record whose storage-header magic has byte j damaged (j in 0..4, or none) and whose declared length covers 0 / 1 / 2 following complete records exactly, or cuts the first one after its storage header / in its payload, or ends inside its pattern, then good records x 3 damage values x 2 schedules".to_string(), move |i, loc| {
-            let c = s2.coords(i);
+        let rl = {
             let mut rec = vec![];
             verbose_message(3, true, &mut rec);
-            let rl = rec.len();
-            let cover = [0usize, rl, 2 * rl, 20, rl - 5, 2][c[1]];
+            rec.len()
+        };
+        let covers = 2 * rl + 6;
+        let sp = Space::new(&[5, covers, 3, 2]);
+        let s2 = sp.clone();
+        ctx.run_family(Family::new(format!("{}.bulk.storage_damage", prefix), sp.size(), format!("storage mode: a good record, a record whose storage-header magic has byte j damaged (j in 0..4, or none) and whose declared length covers EVERY number 0..={} of bytes of the following records (ending inside their pattern, storage header, headers, payload, exactly at a record end, inside the second record), then good records x 3 damage values x 2 schedules", covers - 1), move |i, loc| {
+            let c = s2.coords(i);
+            let cover = c[1];
             let mut s = vec![];
             verbose_message(1, true, &mut s);
             let mut hdr = STORAGE_HDR.to_vec();
